@@ -163,6 +163,9 @@ def parse_output(text, names):
         if active is None:
             continue
         block.append(ln)
+        if 'CBMC timed out' in ln and active in res and res[active]['status'] == 'undecided':
+            res[active]['reason'] = 'timeout'
+            res[active]['detail'] = ln.strip()
         if ln.startswith('VERIFICATION:- '):
             r = res.get(active)
             if r is not None:
@@ -179,7 +182,7 @@ def parse_output(text, names):
             elif 'FAILED' in v:
                 if re.search(r'out of memory|unwinding assertion|timed out|CBMC failed|Unsupported|unsupported', blk, re.I) and not re.search(r'Failed Checks: (?!.*unwinding)', blk):
                     res[active]['status'] = 'undecided'
-                    res[active]['reason'] = 'tool-limit'
+                    res[active]['reason'] = 'timeout' if re.search(r'timed out', blk, re.I) else 'tool-limit'
                 else:
                     res[active]['status'] = 'refuted'
                     res[active]['failures'] = [{'kind': 'kani-check', 'message': x.strip()} for x in re.findall(r'Failed Checks: (.*)', blk)][:10]
@@ -227,6 +230,9 @@ def run(repo, harnesses, workdir, tier, seed, jobs=None, concrete=True):
     cmd.append('--exact')
     for n in names:
         cmd += ['--harness', qn.get(n, n)]
+    # no single obligation may run past the largest per-harness budget of the selection
+    per_harness = max(h.get('timeout_s', 120) for h in harnesses)
+    cmd += ['-Z', 'unstable-options', '--harness-timeout', '%ds' % per_harness]
     env = dict(os.environ, CARGO_NET_OFFLINE='true', CARGO_TARGET_DIR=TARGET_DIR)
     budget = max(300, int(sum(h.get('timeout_s', 120) for h in harnesses) / min(jobs, max(1, len(harnesses))) + max(h.get('timeout_s', 120) for h in harnesses)))
     log = os.path.join(workdir, 'kani.log')
